@@ -19,3 +19,17 @@ Definition protect_handshake (chacha : bool) (a : alg) (hp key iv : bytes) (firs
   do m0 <- index mask 0;
   Ok ([Z.lxor first (Z.land m0 15)] ++ version ++ [len dcid] ++ dcid ++ [len scid] ++ scid ++ enc_var L w ++ xor_zip pnb (slice mask 1 (len pnb + 1)) ++ ct).
 End Send.
+
+Section SendInitial.
+Variable C : Crypto.
+(* Initial packets: first 1100 RRPP, a token with its varint length in front, always the AES mask (RFC 9001 5.4.3: AES-128 for Initial packets) *)
+Definition protect_initial (a : alg) (hp key iv : bytes) (first : Z) (version dcid scid token pnb pn8 payload : bytes) (w wt : Z) : result bytes :=
+  let L := len pnb + len payload + 16 in
+  let pre := [first] ++ version ++ [len dcid] ++ dcid ++ [len scid] ++ scid ++ enc_var (len token) wt ++ token ++ enc_var L w in
+  do ct <- c_aead_enc C a 16 key (quic_nonce iv pn8) payload (pre ++ pnb);
+  let pn_off := len pre in
+  let sample := slice ((pre ++ pnb) ++ ct) (pn_off + 4) (pn_off + 20) in
+  do mask <- c_ecb_enc C hp sample;
+  do m0 <- index mask 0;
+  Ok ([Z.lxor first (Z.land m0 15)] ++ version ++ [len dcid] ++ dcid ++ [len scid] ++ scid ++ enc_var (len token) wt ++ token ++ enc_var L w ++ xor_zip pnb (slice mask 1 (len pnb + 1)) ++ ct).
+End SendInitial.
